@@ -115,7 +115,11 @@
        class F12;
      C05_implementation_wins_unless_hold_goes_stale: if no play consistent
        with the strategy reaches a position of class F12, the implementation
-       WINS the game from the state (comp_wins ... win_rabin);
+       WINS the game from the state: the strategy, NAMED in the statement,
+       is a valid strategy of the mode and every play from the state
+       consistent with it satisfies win_rabin (the weaker "some strategy
+       wins", comp_wins, which would also follow from the exactness of the
+       region, C04, is the corollary ..._exists; likewise below);
      C05_implementation_wins_if_traps_cover: so it does if every winning
        state lies in y_{k,i} of its level for every i; and
      C05_implementation_wins_with_one_persistence_set: ALWAYS when there is
@@ -139,7 +143,7 @@ From OmegaGP Require Import CounterWidth.
 From OmegaGP Require Import TransducerModel TransducerBridge StreettTProofs RabinTProofs
   RabinTProofs2 StreettNB2 StreettClosure1 RabinClosure2 RabinLive2.
 From Omega Require Import L4.GameSpec.
-From OmegaGP Require Import RabinIter1 RabinNB3 RabinUnrepaired.
+From OmegaGP Require Import RabinIter1 RabinNB3 RabinUnrepaired MooreIndepSolver.
 From Omega Require Import L4.Plays.
 From OmegaGP Require RabinWins.
 Local Open Scope bool_scope.
@@ -519,12 +523,40 @@ Theorem C05_implementation_wins_unless_hold_goes_stale :
      forall i, (forall t, t < i -> Eat c E p t /\ ~ blocked t) ->
        ~ (mem i / G < length holds /\
           nth (mem i / G) (nth (fidx zk (stv c (p i))) yki []) bfalse (stv c (p i)) = false)) ->
-  comp_wins nx ny moore (win_rabin c E S holds goals plus_one) s.
+  let f := RabinWins.impl_strategy nc nx ny E S holds goals moore plus_one fuel H G c h0 j0 in
+  cvalid ny moore f /\
+  forall p, inrange nx ny p -> p 0 = s -> cconsistent f p ->
+            win_rabin c E S holds goals plus_one p.
 Proof.
   intros nc nx ny E S holds goals moore plus_one fuel H G c h0 j0 s
-         Hf Sh Sg HnG HnH Hg Hc Hh0 Hj0 sol zk yki H1 H2 Hw Hns.
+         Hf Sh Sg HnG HnH Hg Hc Hh0 Hj0 sol zk yki H1 H2 Hw Hns f.
   exact (RabinWins.implementation_wins_unless_stale nc nx ny E S holds goals moore plus_one fuel
            Hf Sh Sg H G HnG HnH Hg c Hc h0 j0 Hh0 Hj0 s H1 H2 Hw Hns).
+Qed.
+
+Theorem C05_implementation_wins_unless_hold_goes_stale_exists :
+  forall nc nx ny (E S : bdd) (holds goals : list bdd) (moore plus_one : bool) fuel H G c h0 j0 s,
+  NV nc nx ny <= fuel -> Forall spred holds -> Forall spred goals ->
+  length goals <= G -> length holds < H -> 0 < length goals -> c < nc ->
+  h0 <= length holds -> j0 < length goals ->
+  let sol := Gr1Gen.solve_rabin_game nc nx ny E S holds goals moore plus_one fuel in
+  let zk := fst (fst sol) in
+  let yki := snd (fst sol) in
+  fst s < nx -> snd s < ny -> last zk bfalse (stv c s) = true ->
+  (* no play from s consistent with the implementation reaches - through
+     allowed steps, the environment keeping its action - a position of class F12 *)
+  (forall p, inrange nx ny p -> p 0 = s ->
+     cconsistent (RabinWins.impl_strategy nc nx ny E S holds goals moore plus_one fuel H G c h0 j0) p ->
+     let blocked := RabinWins.blocked_at nc nx ny E S holds goals moore plus_one fuel H G c h0 j0 p in
+     let mem := RabinWins.mseq nc nx ny E S holds goals moore plus_one fuel H G c h0 j0 p in
+     forall i, (forall t, t < i -> Eat c E p t /\ ~ blocked t) ->
+       ~ (mem i / G < length holds /\
+          nth (mem i / G) (nth (fidx zk (stv c (p i))) yki []) bfalse (stv c (p i)) = false)) ->
+  comp_wins nx ny moore (win_rabin c E S holds goals plus_one) s.
+Proof.
+  intros nc nx ny E S holds goals moore plus_one fuel H G c h0 j0 s Hf Sh Sg HnG HnH Hg Hc Hh0 Hj0 sol zk yki H1 H2 Hw Hns.
+  exists (RabinWins.impl_strategy nc nx ny E S holds goals moore plus_one fuel H G c h0 j0).
+  exact (C05_implementation_wins_unless_hold_goes_stale nc nx ny E S holds goals moore plus_one fuel H G c h0 j0 s Hf Sh Sg HnG HnH Hg Hc Hh0 Hj0 H1 H2 Hw Hns).
 Qed.
 
 Theorem C05_implementation_wins_if_traps_cover :
@@ -537,12 +569,32 @@ Theorem C05_implementation_wins_if_traps_cover :
   fst s < nx -> snd s < ny -> last zk bfalse (stv c s) = true ->
   (forall x yb h, x < nx -> yb < ny -> h < length holds -> last zk bfalse (sv c x yb) = true ->
      nth h (nth (fidx zk (sv c x yb)) yki []) bfalse (sv c x yb) = true) ->
-  comp_wins nx ny moore (win_rabin c E S holds goals plus_one) s.
+  let f := RabinWins.impl_strategy nc nx ny E S holds goals moore plus_one fuel H G c (length holds) 0 in
+  cvalid ny moore f /\
+  forall p, inrange nx ny p -> p 0 = s -> cconsistent f p ->
+            win_rabin c E S holds goals plus_one p.
 Proof.
   intros nc nx ny E S holds goals moore plus_one fuel H G c s
-         Hf Sh Sg HnG HnH Hg Hc sol zk yki H1 H2 Hw Hcov.
+         Hf Sh Sg HnG HnH Hg Hc sol zk yki H1 H2 Hw Hcov f.
   exact (RabinWins.implementation_wins_if_traps_cover nc nx ny E S holds goals moore plus_one fuel
            Hf Sh Sg H G HnG HnH Hg c Hc (length holds) 0 (le_n _) Hg s H1 H2 Hw Hcov).
+Qed.
+
+Theorem C05_implementation_wins_if_traps_cover_exists :
+  forall nc nx ny (E S : bdd) (holds goals : list bdd) (moore plus_one : bool) fuel H G c s,
+  NV nc nx ny <= fuel -> Forall spred holds -> Forall spred goals ->
+  length goals <= G -> length holds < H -> 0 < length goals -> c < nc ->
+  let sol := Gr1Gen.solve_rabin_game nc nx ny E S holds goals moore plus_one fuel in
+  let zk := fst (fst sol) in
+  let yki := snd (fst sol) in
+  fst s < nx -> snd s < ny -> last zk bfalse (stv c s) = true ->
+  (forall x yb h, x < nx -> yb < ny -> h < length holds -> last zk bfalse (sv c x yb) = true ->
+     nth h (nth (fidx zk (sv c x yb)) yki []) bfalse (sv c x yb) = true) ->
+  comp_wins nx ny moore (win_rabin c E S holds goals plus_one) s.
+Proof.
+  intros nc nx ny E S holds goals moore plus_one fuel H G c s Hf Sh Sg HnG HnH Hg Hc sol zk yki H1 H2 Hw Hcov.
+  exists (RabinWins.impl_strategy nc nx ny E S holds goals moore plus_one fuel H G c (length holds) 0).
+  exact (C05_implementation_wins_if_traps_cover nc nx ny E S holds goals moore plus_one fuel H G c s Hf Sh Sg HnG HnH Hg Hc H1 H2 Hw Hcov).
 Qed.
 
 Theorem C05_implementation_wins_with_one_persistence_set :
@@ -553,11 +605,29 @@ Theorem C05_implementation_wins_with_one_persistence_set :
   fst s < nx -> snd s < ny ->
   last (fst (fst (Gr1Gen.solve_rabin_game nc nx ny E S holds goals moore plus_one fuel))) bfalse
     (stv c s) = true ->
+  let f := RabinWins.impl_strategy nc nx ny E S holds goals moore plus_one fuel H G c (length holds) 0 in
+  cvalid ny moore f /\
+  forall p, inrange nx ny p -> p 0 = s -> cconsistent f p ->
+            win_rabin c E S holds goals plus_one p.
+Proof.
+  intros nc nx ny E S holds goals moore plus_one fuel H G c s Hf Sh Sg HnG HnH Hg Hc H1p H1 H2 Hw f.
+  exact (RabinWins.implementation_wins_one_persistence nc nx ny E S holds goals moore plus_one fuel
+           Hf Sh Sg H G HnG HnH Hg c Hc (length holds) 0 (le_n _) Hg s H1p H1 H2 Hw).
+Qed.
+
+Theorem C05_implementation_wins_with_one_persistence_set_exists :
+  forall nc nx ny (E S : bdd) (holds goals : list bdd) (moore plus_one : bool) fuel H G c s,
+  NV nc nx ny <= fuel -> Forall spred holds -> Forall spred goals ->
+  length goals <= G -> length holds < H -> 0 < length goals -> c < nc ->
+  length holds = 1 ->
+  fst s < nx -> snd s < ny ->
+  last (fst (fst (Gr1Gen.solve_rabin_game nc nx ny E S holds goals moore plus_one fuel))) bfalse
+    (stv c s) = true ->
   comp_wins nx ny moore (win_rabin c E S holds goals plus_one) s.
 Proof.
   intros nc nx ny E S holds goals moore plus_one fuel H G c s Hf Sh Sg HnG HnH Hg Hc H1p H1 H2 Hw.
-  exact (RabinWins.implementation_wins_one_persistence nc nx ny E S holds goals moore plus_one fuel
-           Hf Sh Sg H G HnG HnH Hg c Hc (length holds) 0 (le_n _) Hg s H1p H1 H2 Hw).
+  exists (RabinWins.impl_strategy nc nx ny E S holds goals moore plus_one fuel H G c (length holds) 0).
+  exact (C05_implementation_wins_with_one_persistence_set nc nx ny E S holds goals moore plus_one fuel H G c s Hf Sh Sg HnG HnH Hg Hc H1p H1 H2 Hw).
 Qed.
 
 (* non-vacuity of (g): the game of C05_liveness_example meets the hypotheses
@@ -575,7 +645,10 @@ Example C05_implementation_wins_example :
    (forall x yb h, x < 1 -> yb < 2 -> h < length [P] ->
       last (fst (fst sol)) bfalse (sv 0 x yb) = true ->
       nth h (nth (fidx (fst (fst sol)) (sv 0 x yb)) (snd (fst sol)) []) bfalse (sv 0 x yb) = true))
-  /\ comp_wins 1 2 false (win_rabin 0 E S [P] [R] false) (0, 0).
+  /\ (let f := RabinWins.impl_strategy 1 1 2 E S [P] [R] false false 5 2 1 0 (length [P]) 0 in
+      cvalid 2 false f /\
+      forall p, inrange 1 2 p -> p 0 = (0, 0) -> cconsistent f p ->
+                win_rabin 0 E S [P] [R] false p).
 Proof.
   cbv zeta.
   set (E := fun _ : V => true). set (S := fun v => Nat.eqb (vyp v) (vy v)).
@@ -731,10 +804,29 @@ Example C05_refuted_stale_hold_is_class_F12 :
 Proof. vm_compute. repeat split; repeat constructor. Qed.
 End Refuted_stale_hold.
 
+(* Moore independence for what the construction is really applied to: the
+   hypotheses of C05_moore_independent_of_next_env hold for the output of the
+   GENERATED solver on state predicates, lifted to the arena with the memory
+   (everything the solver records is a state predicate:
+   GenProofs/MooreIndepSolver.v) *)
+Theorem C05_moore_independent_of_next_env_solver :
+  forall nc nx ny (E S : bdd) (holds goals : list bdd) (plus_one : bool) fuel H G,
+  NV nc nx ny <= fuel -> Forall spred holds -> Forall spred goals ->
+  let sol := Gr1Gen.solve_rabin_game nc nx ny E S holds goals true plus_one fuel in
+  let L := lift nc nx ny (H * G) in
+  indep (rabin_action nc nx ny H G (L E) (L S) (map L holds) (map L goals) true plus_one
+           (map L (fst (fst sol))) (map (map L) (snd (fst sol)))
+           (map (map (map (map L))) (snd sol))).
+Proof.
+  intros nc nx ny E S holds goals plus_one fuel H G Hf Sh Sg.
+  exact (rabin_impl_moore_indep nc nx ny E S holds goals plus_one fuel Hf Sh Sg H G).
+Qed.
+
 Print Assumptions C05_construction_is_translated.
 Print Assumptions C05_memory_fields_fit.
 Print Assumptions C05_refines_component_action.
 Print Assumptions C05_moore_independent_of_next_env.
+Print Assumptions C05_moore_independent_of_next_env_solver.
 Print Assumptions C05_memory_in_range.
 Print Assumptions C05_region_closed.
 Print Assumptions C05_reachable_states_winning.
@@ -749,8 +841,11 @@ Print Assumptions C05_blocks_only_example.
 Print Assumptions C05_blocked_at_means_no_allowed_step.
 Print Assumptions C05_play_is_won_or_blocks_with_stale_hold.
 Print Assumptions C05_implementation_wins_unless_hold_goes_stale.
+Print Assumptions C05_implementation_wins_unless_hold_goes_stale_exists.
 Print Assumptions C05_implementation_wins_if_traps_cover.
+Print Assumptions C05_implementation_wins_if_traps_cover_exists.
 Print Assumptions C05_implementation_wins_with_one_persistence_set.
+Print Assumptions C05_implementation_wins_with_one_persistence_set_exists.
 Print Assumptions C05_implementation_wins_example.
 Print Assumptions C05_repaired_dead_end_has_step.
 Print Assumptions C05_refuted_unrepaired_dead_end.
